@@ -23,6 +23,7 @@ EXPLANATION = (
     "raise mode, 'raise result.error'); (R5) the error and pause paths of run() filter partial values with the non-raising default on_missing policy, "
     "so a user's on_missing='error' cannot replace the node's exception. (R6) no function under runners/ cancels a task or applies a time-out (the CancelledError/TimeoutError this injects would compete with the node's own exception for 'first error of the step' and is not an Exception the templates unwrap). R2 also requires the carrier's constructor to be total (str(cause) and attribute stores only); R3 evaluates the result-application loop under 'the result is an exception' as a valuation of that atom, so a second failure of the same step can never be unpacked as data."
     " R3 also requires, for the async step, that the loop applying the gathered results is never left early (no raise/break/return inside it): gather waits for all siblings, so the partial state holds each one's outputs wherever the failing node sits in the ready order."
+    " R1 also treats a handler around the consumption of what a node function returned (list(result), iteration, await) as a handler of node code, and allows replacing the handled exception by its __cause__ only where it is the internal carrier; R2 requires the carrier to be unwrapped by presence of a cause, not by its truth value."
 )
 NOT_DECIDED = "That partial values are the correct values (a statement about computed data); which of several same-step failures is reported first is decided under C02."
 
@@ -535,7 +536,7 @@ VARIANTS = [
     Variant("runner-swallow-generic", SR, replace_once("            except ExecutionError:\n                raise\n            except Exception as e:\n                raise ExecutionError(e, state) from e", "            except ExecutionError:\n                raise\n            except Exception:\n                break"), {"C11.R1"}),
     Variant("async-runner-carrier-without-cause", AR, replace_once("                    raise ExecutionError(e, state) from e", "                    raise ExecutionError(RuntimeError(str(e)), state) from e"), {"C11.R1"}),
     Variant("map-item-swallow", TA, sub_once(r"(            except Exception as e:\n                # Catch validation errors.*?\n                # before run\(\)'s execution try block\n                return RunResult\(\n                    values=\{\},\n                    status=RunStatus\.)FAILED(,\n                    run_id=_generate_run_id\(\),\n                    error=e,)", r"\1COMPLETED\2"), {"C11.R1"}),
-    Variant("template-no-unwrap", TS, replace_once("                error = e.__cause__ or e\n                partial_state = e.partial_state", "                partial_state = e.partial_state"), {"C11.R2"}),
+    Variant("template-no-unwrap", TS, replace_once("                error = e.__cause__ if e.__cause__ is not None else e\n                partial_state = e.partial_state", "                partial_state = e.partial_state"), {"C11.R2"}),
     Variant("template-raise-with-context", TA, replace_once("                raise error from None", "                raise e"), {"C11.R2"}),
     Variant("template-nested-reraises-carrier", TA, replace_once("            if error_handling == \"raise\":\n                raise error from None\n\n            partial_values = filter_outputs(partial_state, graph, select) if partial_state is not None else {}\n            return RunResult(\n                values=partial_values,\n                status=RunStatus.FAILED,", "            if error_handling == \"raise\":\n                if _parent_span_id is not None and isinstance(e, ExecutionError):\n                    raise\n                raise error from None\n\n            partial_values = filter_outputs(partial_state, graph, select) if partial_state is not None else {}\n            return RunResult(\n                values=partial_values,\n                status=RunStatus.FAILED,"), {"C11.R2"}),
     Variant("template-failed-values-empty", TS, replace_once("            partial_values = filter_outputs(partial_state, graph, select) if partial_state is not None else {}", "            partial_values = {}"), {"C11.R2"}),
